@@ -62,6 +62,8 @@ MORE_MAPS = [
 ALIAS_MAPS = [
     [{"rule": "/r/<int:y>", "endpoint": "r"}, {"rule": "/r/l", "endpoint": "r", "defaults": {"y": 7}, "alias": True}],
     [{"rule": "/s/<x>/<int:p>", "endpoint": "s"}, {"rule": "/s/<x>", "endpoint": "s", "defaults": {"p": 1}, "alias": True}, "/s"],
+    # an alias that binds one argument more than its canonical rule
+    [{"rule": "/i/<int:n>", "endpoint": "i"}, {"rule": "/i/<int:n>/<t>", "endpoint": "i", "alias": True}],
 ]
 
 
@@ -329,7 +331,7 @@ def body_match(I, X, mi=0, order=0, strict=True, merge=True, n=3, method="GET", 
                         # float arguments are not compared (float() of solver text is a real)
                         a = {name: (conv_value(conv, g[name]) if conv != "float" else None) for name, conv in r["groups"]}
                         a.update(r["defaults"])
-                        denotes.append((r["endpoint"], a))
+                        denotes.append((r["endpoint"], a, r["alias"]))
             has_special = any(r["defaults"] or r["alias"] for r in refs)
             ok = slashy if not has_special else True
             # convergence: re-matching the target gives a match (no further redirect) that
@@ -346,8 +348,12 @@ def body_match(I, X, mi=0, order=0, strict=True, merge=True, n=3, method="GET", 
                     rule2, args2 = I.call(adapter.match, (), {"path_info": punquote(cur), "method": method, "return_rule": True,
                                                               "query_args": "q=1"})
                     got2 = dict(I.dict_items(args2))
-                    for ep, a in denotes:
+                    for ep, a, is_alias in denotes:
                         if ep == rule2.endpoint and len(a) == len(got2) and all(k in got2 and (v is None or bool(peq(got2[k], v))) for k, v in a.items()):
+                            same = True
+                        # an alias rule may bind more arguments than the canonical rule it redirects
+                        # to: what the canonical rule binds must agree
+                        if is_alias and ep == rule2.endpoint and all(k in a and (a[k] is None or bool(peq(v, a[k]))) for k, v in got2.items()):
                             same = True
                     break
                 except RequestRedirect as e2:
@@ -479,7 +485,12 @@ def make_stubs():
             return quote_model(string, safe)
         return urllib.parse.quote(string, safe, encoding, errors)
 
-    return {urllib.parse.quote: quote_stub}
+    def urlsplit_stub(I, url, scheme="", allow_fragments=True):
+        """urllib.parse.urlsplit is wrapped in functools.lru_cache (C, hashes its arguments):
+        the wrapped pure-Python function is interpreted instead"""
+        return I.call(urllib.parse.urlsplit.__wrapped__, (url, scheme, allow_fragments))
+
+    return {urllib.parse.quote: quote_stub, urllib.parse.urlsplit: urlsplit_stub}
 
 
 def quote_selftest():
